@@ -117,10 +117,10 @@ func Run(s *simrt.Sim, a *harness.Args, r *harness.Result) {
 		// every worker's script is drawn up front so that the schedule does
 		// not change what the workers want to do
 		type op struct {
-			key    string
-			sleep  time.Duration
-			hold   time.Duration
-			ret    int // 0 return, 1 close myself, 2 mark unusable and return
+			key   string
+			sleep time.Duration
+			hold  time.Duration
+			ret   int // 0 return, 1 close myself, 2 mark unusable and return
 		}
 		var script []op
 		for j := 0; j < rounds; j++ {
